@@ -28,6 +28,8 @@ pub enum TVal {
 
 #[derive(Clone, Debug, PartialEq)]
 pub struct Case {
+    /// 0 = none; 1 = store.toml holds non-UTF-8 bytes; 2 = store.toml is a directory; 3 = buildpack plan holds non-UTF-8 bytes
+    bad_input: u8,
     build_phase: bool,
     platform: Option<Option<Vec<PEntry>>>, // None = platform dir missing, Some(None) = env dir missing
     plan: Vec<(String, Option<TV>)>,
@@ -112,7 +114,7 @@ fn case_strategy() -> impl Strategy<Value = Case> {
         (tval(true), tval(true), tval(false), tval(true), tval(true)),
         0u8..3,
     )
-        .prop_map(|(build_phase, platform, plan, store, descriptor, t, bp_dir_spelling)| Case { build_phase, platform, plan, store, descriptor, target: [t.0, t.1, t.2, t.3, t.4], bp_dir_spelling })
+        .prop_map(|(build_phase, platform, plan, store, descriptor, t, bp_dir_spelling)| Case { bad_input: 0, build_phase, platform, plan, store, descriptor, target: [t.0, t.1, t.2, t.3, t.4], bp_dir_spelling })
 }
 
 fn pentry_json(e: &PEntry) -> Value {
@@ -152,11 +154,13 @@ fn case_json(c: &Case) -> Value {
         "descriptor": c.descriptor.to_json(),
         "target": c.target.iter().map(tval_json).collect::<Vec<_>>(),
         "bp_dir_spelling": c.bp_dir_spelling,
+        "bad_input": c.bad_input,
     })
 }
 fn case_from_json(v: &Value) -> Case {
     let t: Vec<TVal> = v["target"].as_array().unwrap().iter().map(|x| if x.is_null() { TVal::Unset } else { TVal::Val(json_to_bytes(x)) }).collect();
     Case {
+        bad_input: v["bad_input"].as_u64().unwrap_or(0) as u8,
         build_phase: v["build_phase"].as_bool().unwrap(),
         platform: if v["platform"] == "missing" { None } else if v["platform"] == "env-missing" { Some(None) } else { Some(Some(v["platform"].as_array().unwrap().iter().map(pentry_from_json).collect())) },
         plan: v["plan"].as_array().unwrap().iter().map(|e| (e["name"].as_str().unwrap().to_string(), if e["metadata"].is_null() { None } else { Some(TV::from_json(&e["metadata"])) })).collect(),
@@ -262,6 +266,15 @@ fn check(ctx: &Ctx, scratch: &Path, c: &Case) -> Check {
         if let Some(s) = &c.store {
             std::fs::write(d.layers.join("store.toml"), emit_doc(&TV::Table(vec![("metadata".into(), s.clone())]))).unwrap();
         }
+        match c.bad_input {
+            1 => std::fs::write(d.layers.join("store.toml"), b"[metadata]\nk = \"\xff\xfe\"\n").unwrap(),
+            2 => {
+                let _ = std::fs::remove_file(d.layers.join("store.toml"));
+                std::fs::create_dir_all(d.layers.join("store.toml")).unwrap();
+            }
+            3 => std::fs::write(&d.plan, b"[[entries]]\nname = \"\xff\"\n").unwrap(),
+            _ => {}
+        }
     }
     // environment
     let bp_dir_str: OsString = match c.bp_dir_spelling {
@@ -300,11 +313,14 @@ fn check(ctx: &Ctx, scratch: &Path, c: &Case) -> Check {
     let out = bprun::run(&BpRun { root: &root, exe_name: if c.build_phase { "build" } else { "detect" }, args, env, script: &script, extra_env: vec![] });
     let what = format!("exit {:?}, markers {:?}, stderr {:?}", out.code, out.markers, out.stderr.chars().take(300).collect::<String>());
     let r = (|| -> Check {
-        let expect_error = bad_content || bad_mandatory || bad_variant;
+        let bad_file_input = c.build_phase && c.bad_input != 0;
+        let expect_error = bad_content || bad_mandatory || bad_variant || bad_file_input;
         if expect_error {
             ctx.class("expects-reported-error");
             if out.code == Some(0) || out.dump.is_some() {
-                let sig = if bad_variant && !bad_content && !bad_mandatory { "C06:arch-variant-not-unicode-dropped" } else if bad_content { "C06:unrepresentable-file-content-not-reported" } else { "C06:unrepresentable-target-value-not-reported" };
+                let sig = if bad_file_input && !bad_content && !bad_mandatory && !bad_variant {
+                    if c.bad_input == 3 { "C06:unreadable-buildpack-plan-not-reported" } else { "C06:unreadable-store-treated-as-absent" }
+                } else if bad_variant && !bad_content && !bad_mandatory { "C06:arch-variant-not-unicode-dropped" } else if bad_content { "C06:unrepresentable-file-content-not-reported" } else { "C06:unrepresentable-target-value-not-reported" };
                 return Err(Fail::new(sig, format!("a value that cannot be represented was not reported as an error: {what}; dump target {:?}", out.dump.as_ref().map(|d| d["target"].clone()))));
             }
             ensure!(out.count("on_error") == 1, "C06:error-not-reported-through-handler", "{what}");
@@ -399,7 +415,7 @@ fn nontrivial(c: &Case) -> bool {
 }
 
 pub fn run(ctx: &Ctx) {
-    ctx.set_rule("contexts of real detect/build executions of a scripted buildpack that dumps its context: platform directories (0..8 entries: files with byte-string names incl. dots, spaces, '=', newline, non-UTF-8 and UTF-8 contents incl. empty/trailing newlines/multi-line/padded; sub-directories; symlinks to files (direct and chained), to directories, dangling; env dir missing; platform dir missing), buildpack plans (0..4 entries with nested metadata of every TOML kind), store tables or no store.toml, descriptors with optional fields/targets/nested metadata, CNB_TARGET_* values from {unset (optional only), '', linux, v8, unicode, padded}, three spellings of CNB_BUILDPACK_DIR and the layers argument; separately generated classes with one unrepresentable value (non-UTF-8 file content, non-UTF-8 value of a mandatory target variable, non-UTF-8 CNB_TARGET_ARCH_VARIANT). Inputs are emitted by the harness's own TOML emitter. Oracle: field-by-field equality of the dump with the generated inputs; unrepresentable value => reported error (non-zero exit, error handler once, no context). Non-trivial: platform env has >= 1 file plus >= 1 symlink/directory, or plan/store/descriptor metadata nested >= 2; distinct = hash of the case.");
+    ctx.set_rule("contexts of real detect/build executions of a scripted buildpack that dumps its context: platform directories (0..8 entries: files with byte-string names incl. dots, spaces, '=', newline, non-UTF-8 and UTF-8 contents incl. empty/trailing newlines/multi-line/padded; sub-directories; symlinks to files (direct and chained), to directories, dangling; env dir missing; platform dir missing), buildpack plans (0..4 entries with nested metadata of every TOML kind), store tables or no store.toml, descriptors with optional fields/targets/nested metadata, CNB_TARGET_* values from {unset (optional only), '', linux, v8, unicode, padded}, three spellings of CNB_BUILDPACK_DIR and the layers argument; separately generated classes with one unrepresentable value (non-UTF-8 file content, non-UTF-8 value of a mandatory target variable, non-UTF-8 CNB_TARGET_ARCH_VARIANT, store.toml with non-UTF-8 bytes, store.toml being a directory, buildpack plan with non-UTF-8 bytes). Inputs are emitted by the harness's own TOML emitter. Oracle: field-by-field equality of the dump with the generated inputs; unrepresentable value => reported error (non-zero exit, error handler once, no context). Non-trivial: platform env has >= 1 file plus >= 1 symlink/directory, or plan/store/descriptor metadata nested >= 2; distinct = hash of the case.");
     ctx.assume("paths and argv are UTF-8");
     let scratch = Scratch::new("c06");
     for (_p, v) in ctx.regress_files() {
@@ -417,8 +433,12 @@ pub fn run(ctx: &Ctx) {
         check(ctx, &scratch.path, c)
     });
     // one unrepresentable value per case
-    let bad = (case_strategy(), 0u8..3, 0usize..4).prop_map(|(mut c, which, idx)| {
+    let bad = (case_strategy(), 0u8..6, 0usize..4).prop_map(|(mut c, which, idx)| {
         match which {
+            3 | 4 | 5 => {
+                c.build_phase = true;
+                c.bad_input = which - 2;
+            }
             0 => {
                 let e = PEntry::BadFile { name: b"BAD_CONTENT".to_vec() };
                 match &mut c.platform {
